@@ -326,7 +326,13 @@ func (a *List) M__rmul__(other Object) (Object, error) {
 }
 
 func (a *List) M__imul__(other Object) (Object, error) {
-	return a.M__mul__(other)
+	res, err := a.M__mul__(other)
+	if newList, ok := res.(*List); ok && err == nil {
+		// in place: every alias sees the result
+		a.Items = newList.Items
+		return a, nil
+	}
+	return res, err
 }
 
 // Check interface is satisfied
